@@ -118,6 +118,48 @@ func c08HashesBad(lens []int) bool {
 	return false
 }
 
+// c08Mapper is the family of InstanceOptions.ErrorMapper values the harness configures. Each follows the documented
+// contract: it converts the errors it knows and DECLINES (ok == false) the rest, which must then be converted by
+// the front end's own gRPC table.
+//   1: declines everything; 2: converts errors without a gRPC status to 503; 3: NotFound→410, Unavailable→429.
+func c08Mapper(mp int) func(error) (int, bool) {
+	switch mp {
+	case 1:
+		return func(error) (int, bool) { return 0, false }
+	case 2:
+		return func(err error) (int, bool) {
+			if _, ok := status.FromError(err); !ok {
+				return 503, true
+			}
+			return 0, false
+		}
+	case 3:
+		return func(err error) (int, bool) {
+			switch status.Code(err) {
+			case codes.NotFound:
+				return 410, true
+			case codes.Unavailable:
+				return 429, true
+			}
+			return 0, false
+		}
+	}
+	return nil
+}
+
+// c08MapperSpec: what mapper #mp answers for an injected backend error (code < 0: an error without gRPC status).
+func c08MapperSpec(mp, code int) (int, bool) {
+	switch {
+	case mp == 2 && code < 0:
+		return 503, true
+	case mp == 3 && code == 5:
+		return 410, true
+	case mp == 3 && code == 14:
+		return 429, true
+	}
+	return 0, false
+}
+
 func c08Err(code int) error {
 	if code < 0 {
 		return errors.New("verif: plain backend error")
@@ -333,6 +375,7 @@ func TestVerifC08(t *testing.T) {
 		body           string
 		bodyOk, chainOk bool
 		signOk         bool
+		mp             int  // which InstanceOptions.ErrorMapper the instance carries (c08Mapper); 0 = none
 		mirror         bool // served by an instance with IsMirror (MirrorSTHGetter); oracle-only, the Lean model has no mirror endpoint
 	}
 	b64 := base64.StdEncoding.EncodeToString(make([]byte, 32))
@@ -356,6 +399,7 @@ func TestVerifC08(t *testing.T) {
 		rl *c08ReqLog
 	}
 	var shared *c08Inst
+	mpCur := 0
 	newInst := func(signOk bool, mask bool, mirror ...bool) *c08Inst {
 		in := &c08Inst{fl: &verifkit.FuncLog{}, rl: &c08ReqLog{}}
 		var signer crypto.Signer = key
@@ -365,6 +409,7 @@ func TestVerifC08(t *testing.T) {
 		in.li = vLogInfo(in.fl, signer, util.NewFixedTimeSource(time.Date(2017, 12, 4, 0, 1, 30, 0, time.UTC)), nil, func(io *InstanceOptions, vo *CertValidationOpts) {
 			io.RequestLog = in.rl
 			io.MaskInternalErrors = mask
+			io.ErrorMapper = c08Mapper(mpCur)
 			io.Validated.Config.MaxMergeDelaySec = 86400
 			io.Validated.Config.ExpectedMergeDelaySec = 7200
 			if len(mirror) > 0 && mirror[0] {
@@ -378,7 +423,8 @@ func TestVerifC08(t *testing.T) {
 	}
 	run := func(ep string, q rq, rep c08Reply, mask bool) {
 		in := shared
-		if in == nil || q.mirror {
+		mpCur = q.mp
+		if in == nil || q.mirror || q.mp != 0 {
 			in = newInst(q.signOk || !(ep == "add-chain" || ep == "add-pre-chain" || ep == "get-sth"), mask, q.mirror)
 		} else {
 			*in.fl = verifkit.FuncLog{}
@@ -414,7 +460,10 @@ func TestVerifC08(t *testing.T) {
 			_, err := base64.StdEncoding.DecodeString(q.hash)
 			hashOk = err == nil
 		}
-		op := fmt.Sprintf("ep %s %s %s %s %s %s %s %s %s | %s", ep, verifkit.B(q.method == wantMethod), hx(q.p1), hx(q.p2), verifkit.B(hashOk), verifkit.B(q.bodyOk), verifkit.B(q.chainOk), verifkit.B(q.signOk), verifkit.B(mask), rep.desc)
+		op := fmt.Sprintf("ep %s %s %s %s %s %s %s %s %s %d | %s", ep, verifkit.B(q.method == wantMethod), hx(q.p1), hx(q.p2), verifkit.B(hashOk), verifkit.B(q.bodyOk), verifkit.B(q.chainOk), verifkit.B(q.signOk), verifkit.B(mask), q.mp, rep.desc)
+		if q.mp != 0 {
+			out.Count(fmt.Sprintf("class:error-mapper-%d", q.mp))
+		}
 		ans := "panic"
 		if pn == "" {
 			textShown := strings.Contains(body, "\n") && len(strings.SplitN(body, "\n", 2)[1]) > 1
@@ -434,6 +483,9 @@ func TestVerifC08(t *testing.T) {
 		out.Count("ep:" + ep)
 		// ---- the property itself
 		key := fmt.Sprintf("ep %s p1=%s p2=%s method=%s sign=%v | %s", ep, q.p1, q.p2, q.method, q.signOk, rep.desc)
+		if q.mp != 0 {
+			key = fmt.Sprintf("ErrorMapper#%d ", q.mp) + key
+		}
 		if q.mirror {
 			key = "mirror " + key
 		}
@@ -501,6 +553,11 @@ func TestVerifC08(t *testing.T) {
 				}
 			} else {
 				want = 5
+				code = -1
+			}
+			// a configured ErrorMapper is consulted first; an error it declines falls back to the table above
+			if ms, took := c08MapperSpec(q.mp, code); took {
+				want = ms
 			}
 			ok := st == want || (want < 10 && st/100 == want)
 			if !ok || rl.scts > 0 {
@@ -517,6 +574,21 @@ func TestVerifC08(t *testing.T) {
 		for _, q := range reqs[ep] {
 			for _, rep := range replies[ep] {
 				run(ep, q, rep, false)
+			}
+		}
+	}
+	// 1b. the same matrix on instances with a custom ErrorMapper (an extension point for embedders): errors it
+	//     converts get its status, errors it declines get the gRPC table's
+	for mp := 1; mp <= 3; mp++ {
+		for _, ep := range c08Eps {
+			for _, q := range reqs[ep] {
+				if q.mirror {
+					continue
+				}
+				q.mp = mp
+				for _, rep := range replies[ep] {
+					run(ep, q, rep, mp == 2 && strings.HasPrefix(rep.desc, "err"))
+				}
 			}
 		}
 	}
